@@ -128,6 +128,26 @@ func runConv(c *core.Ctx, id string, k kase) {
 			c.Sample(det)
 		}
 	}
+	// a message that is a plain value ([]byte, [][]byte) still carries its content after a helper looked at it: a codec
+	// that measures or inspects a message and then forwards the same value must forward the same bytes
+	if det.Panic == "" && err == nil {
+		var after []byte
+		switch m := msg.(type) {
+		case []byte:
+			after = m
+		case [][]byte:
+			for _, part := range m {
+				after = append(after, part...)
+			}
+		default:
+			return
+		}
+		c.Count("value_inputs_compared_after_conversion", 1)
+		if d, ok := diff(after, want); !ok {
+			det.Diff = &d
+			c.Violation(base+"-consumes-its-input", id, fmt.Sprintf("after %s(%s carrying %d bytes) had returned (and its result had been read), the message value itself no longer carries its content: %s", k.fn, car.name, k.size, d), det)
+		}
+	}
 }
 
 func runConvBad(c *core.Ctx, id string, k kase) {
